@@ -86,7 +86,13 @@ def body_forward(fn, self_ty, ident):
         except Inconclusive as e:
             M.emit('cex', what='alias_forwarding', impl=self_ty, identity=ident, problem='does not simply forward: ' + str(e)[:120]); return
         norm = lambda s: s.replace(' ', '').replace("'static", '')
-        ok = len(calls) == 1 and isinstance(r, Tok) and r.name == 'result-of:' + calls[0] and (norm(calls[0]) in (norm(want), norm('<<%s as TypeInfo>::Identity as TypeInfo>::type_info' % self_ty)))
+        accepted = [norm(want), norm('<<%s as TypeInfo>::Identity as TypeInfo>::type_info' % self_ty)]
+        mm = _re.fullmatch(r'(\w+)::Identity|<(\w+) as TypeInfo>::Identity', ident)
+        if mm:
+            # Identity = T::Identity: forwarding to T::type_info() is coherent by induction on T (T's own definition equals that of T::Identity)
+            g = mm.group(1) or mm.group(2)
+            accepted = [norm('<%s as TypeInfo>::type_info' % g), norm('<<%s as TypeInfo>::Identity as TypeInfo>::type_info' % g)]
+        ok = len(calls) == 1 and isinstance(r, Tok) and r.name == 'result-of:' + calls[0] and norm(calls[0]) in accepted
         if ok: M.emit('ok', impl=self_ty, identity=ident, forwards_to=calls[0])
         else: M.emit('cex', what='alias_forwarding', impl=self_ty, identity=ident, problem='calls %s, returns %r' % (calls, r))
     return body
